@@ -23,7 +23,7 @@ RULE = (
     "non-trivial = more than one entry or non-zero data; distinct = case key (index-coded entries are unique per shape)"
 )
 BOUNDS = {
-    "quick": "all shapes (I,J,K) in {1..4}^3 x modes 0..2 x 3 layouts; images H,W in {1..4} x 5 value classes x 3 real parts; psnr/relative_error on 6 pair kinds; add_awgn_snr: 4 snr x 8 shapes with a stub generator, and for images with at most 12 components the exact expectation over all 2^N sign streams",
+    "quick": "all shapes (I,J,K) in {1..4}^3 x modes 0..2 x 3 layouts; images H,W in {1..4} x 5 value classes x 3 real parts; psnr/relative_error on 6 pair kinds; add_awgn_snr: 4 snr x 8 shapes with a stub generator, and for images with at most 12 components the exact expectation over all 2^N sign streams; all 4^4 selections of channel views of one buffer; float32/float16 pairs below the precision of the squared difference",
     "thorough": "shapes up to 6^3, images up to 6x6",
 }
 THOROUGH_STREAMS = 8
